@@ -29,6 +29,24 @@ REAL_SLEEP = time.sleep
 REAL_PERF = time.perf_counter
 
 
+def with_os_resource(make):
+    """Call `make()` (creating a real inotify instance or the like).  Such
+    kernel objects are a per-user resource shared with every other process
+    on the machine (128 inotify instances by default): when none is left,
+    wait in real time, outside the simulated world, and try again.  Nothing
+    simulated is consulted, so replay is unaffected."""
+    import errno
+    for attempt in range(3000):
+        try:
+            return make()
+        except OSError as err:
+            if err.errno not in (errno.EMFILE, errno.ENFILE, errno.ENOSPC,
+                                 errno.ENOMEM) or attempt == 2999:
+                raise
+            REAL_SLEEP(0.1)
+    raise AssertionError('unreachable')
+
+
 class SimCrash(BaseException):
     """The simulated process is killed at this instant."""
 
